@@ -296,7 +296,7 @@ func runC14(e *env) {
 		} else {
 			cases = append(cases, mkCase(0))
 		}
-		inputs = append(inputs, map[string]interface{}{"module": spec, "endpoints": o.Endpoints, "methods": ms, "axios": o.Axios.Outcome + " " + o.Axios.Msg, "class": cls})
+		inputs = append(inputs, map[string]interface{}{"module": spec, "endpoints": o.Endpoints, "methods": ms, "axios": o.Axios.Outcome + " " + o.Axios.Msg, "class": cls, "class_scope": "property-only"})
 		if len(cases) >= 10 {
 			e.writeCases2(fmt.Sprintf("cases_C14_%d", len(e.m.CaseFiles)), "From Coq Require Import List String.\nFrom GM Require Import Base.Hex Model.Http Model.Axios Corr.Check_C14.\nImport ListNotations.\nLocal Open Scope string_scope.\n", "mismatches", "prop_failures", cases, inputs)
 			cases, inputs = nil, nil
